@@ -385,7 +385,7 @@ assert chunks is None or sum(len(c) for c in chunks) == len(whole)
 MANIFEST_TEXT = ('Stateless exhaustive exploration of the real chunked reader: every file of 1..3 (quick) / 1..4 (thorough) '
                  'records drawn from 2/3 record variants (short, long, mixed field lengths) for 11 formats x LF/CRLF x '
                  'final newline or none x plain/gzip x lazy/eager x EVERY min_chunk_size 1..size+2, plus read_chunk(k1) '
-                 'then read_chunks(k2) and one extra read after the end; after every delivered chunk the entries so far '
+                 'then read_chunks(k2) and one extra read after the end; the chunk objects of read_chunks(k) joined with np.concatenate and read (>= 3 chunks, every configuration); after every delivered chunk the entries so far '
                  'must be a prefix of read()\'s entries and at completion equal to them. Coincidences such as "tail length '
                  'is a multiple of k" are hit for every file because all k are enumerated.')
 MANIFEST_NOTE = ('Trusted: NumPy, npstructures, CPython, the observer (engine/observe.py). Reference = read() of the same '
